@@ -79,6 +79,10 @@ def locate (fs : FS) (p : Path) : Option Path :=
   match p.getLast? with
   | none => none
   | some name =>
+    if name == [] || name == dot || name == dotdot then
+      -- ".", ".." or a trailing slash: the path names a directory
+      resolveDir fs (fuelFor p) [] p
+    else
     match resolveDir fs (fuelFor p) [] p.dropLast with
     | some pp => some (pp ++ [name])
     | none => none
@@ -129,18 +133,22 @@ def mkdir (fs : FS) (p : Path) (mode : Nat) : FS × Bool :=
     | none => (fs.set loc (.dir mode), true)
     | some _ => (fs, false)
 
-def prefixesFrom (base : Path) : List Name → List Path
-  | [] => []
-  | c :: rest => (base ++ [c]) :: prefixesFrom (base ++ [c]) rest
+/-- `mkdir` of one path if nothing is there (existing entries of any kind are kept) -/
+def mkdirIfMissing (fs : FS) (q : Path) (mode : Nat) : FS :=
+  match locate fs q with
+  | some loc => (match fs.get loc with | none => fs.set loc (.dir mode) | some _ => fs)
+  | none => fs
+
+/-- create `base ++ [c₁]`, `base ++ [c₁, c₂]`, … in this order where missing -/
+def mkdirChain (fs : FS) (mode : Nat) (base : Path) : List Name → FS
+  | [] => fs
+  | c :: rest => mkdirChain (mkdirIfMissing fs (base ++ [c]) mode) mode (base ++ [c]) rest
 
 /-- `os.MkdirAll`: create every missing directory of the path; existing entries (also symlinks
     to directories, which `stat` follows) are kept. Succeeds iff the path names a directory
     afterwards. -/
 def mkdirAll (fs : FS) (p : Path) (mode : Nat) : FS × Bool :=
-  let fs' := (prefixesFrom [] p).foldl (fun f q =>
-    match locate f q with
-    | some loc => (match f.get loc with | none => f.set loc (.dir mode) | some _ => f)
-    | none => f) fs
+  let fs' := mkdirChain fs mode [] p
   match locateFollow fs' (fuelFor p) p with
   | some loc => (match fs'.get loc with | some (.dir _) => (fs', true) | _ => (fs', false))
   | none => (fs', false)
